@@ -55,6 +55,7 @@ type Shared struct {
 	notes      map[string]int
 	deadline   time.Time
 	probeNames sync.Map
+	oneShot    bool
 }
 
 type noHandler struct{}
@@ -317,6 +318,13 @@ func (e *Exec) worker(wg *sync.WaitGroup) {
 				sh.addNote("time budget exceeded")
 				atomic.StoreInt32(&sh.stop, 1)
 			}
+			if sh.oneShot {
+				fmt.Println("PATH END:", pe.kind, pe.msg)
+				for _, l := range e.sch.log {
+					fmt.Println("   ", l)
+				}
+				break
+			}
 			if atomic.LoadInt32(&sh.hungry) > 0 {
 				e.donate()
 			}
@@ -440,6 +448,10 @@ func runHarness(prog *ssa.Program, entry *ssa.Function, cfg *RunConfig, handlers
 		violations: map[string]*Violation{}, traceSched: !cfg.Sequential}
 	sh.cond = sync.NewCond(&sh.mu)
 	sh.queue = [][]int{{}}
+	if cfg.OneTrail != nil {
+		sh.queue = [][]int{cfg.OneTrail}
+		sh.oneShot = true
+	}
 	if budget > 0 {
 		sh.deadline = time.Now().Add(budget)
 	}
